@@ -850,6 +850,9 @@ func (c *CEnv) callExpr(e *CE, hint *Value) Value {
 		a := c.evalH(e.Args[0], nil)
 		c.x.vc.needByteLen()
 		return c.mathInt(App("bytelen", SInt, a.X))
+	case "rpos", "ravail", "rbyte", "wlen", "wbyte":
+		v, _ := c.ioBuiltin(name, e)
+		return v
 	case "unix", "nanosecond":
 		// Unix seconds / nanosecond part of a time.Time value
 		a := c.eval(e.Args[0])
